@@ -12,6 +12,7 @@ import (
 	"io"
 	"math/rand/v2"
 	"net/http"
+	"slices"
 	"strings"
 	"time"
 
@@ -28,7 +29,10 @@ var (
 	maxAgeIATs = []time.Duration{0, 10 * time.Second, 5 * time.Minute}
 	maxAges    = []time.Duration{0, 30 * time.Second, 10 * time.Minute}
 	allAlgs    = []string{"RS256", "RS384", "RS512", "PS256", "PS384", "PS512", "ES256", "ES384", "ES512", "EdDSA"}
-	issuers    = []string{"https://op.example.com", "https://op.example.com/", "https://op.example.com/tenant/a", "http://localhost:9998/", "https://xn--op-jka.example/ü"}
+	// HMAC algorithms: only ever allowed by an explicit allow-list, verified with a shared secret; the library has no
+	// at_hash hash for them
+	hsAlgs  = []string{"HS256", "HS384", "HS512"}
+	issuers = []string{"https://op.example.com", "https://op.example.com/", "https://op.example.com/tenant/a", "http://localhost:9998/", "https://xn--op-jka.example/ü"}
 	clientIDs  = []string{"client-1", "web", "0oa1b2c3d4@apps.example", "urn:example:client:Ünï", "a b"}
 	acrSilver  = "urn:mace:incommon:iap:silver"
 	acrBronze  = "urn:mace:incommon:iap:bronze"
@@ -194,6 +198,9 @@ func drawCfg(r *rand.Rand, alg string) *cfg {
 	c.ACRCustom = c.ACR != nil && r.IntN(4) == 0
 	c.setAlgs(r, alg, true)
 	c.Route, c.RouteOrder = pick(r, routes...), r.IntN(2)
+	if isHS(alg) {
+		c.Route = "direct" // a shared secret is not published in a JWKS
+	}
 	return c
 }
 
@@ -215,6 +222,9 @@ func (c *cfg) setAlgs(r *rand.Rand, alg string, allow bool) {
 			c.Algs, c.AlgsKind = []string{pick(r, others...), alg}, "two"
 		default:
 			c.Algs, c.AlgsKind = append([]string(nil), allAlgs...), "all"
+		}
+		if c.Algs != nil && isHS(alg) && !slices.Contains(c.Algs, alg) {
+			c.Algs = append(c.Algs, alg)
 		}
 		return
 	}
@@ -611,11 +621,13 @@ func otherParty(c *cfg, kind string) string {
 	return "https://rs.example/api"
 }
 
+func isHS(alg string) bool { return strings.HasPrefix(alg, "HS") }
+
 func hashFor(alg string) hash.Hash {
 	switch alg {
-	case "RS256", "PS256", "ES256":
+	case "RS256", "PS256", "ES256", "HS256":
 		return sha256.New()
-	case "ES384", "RS384", "PS384":
+	case "ES384", "RS384", "PS384", "HS384":
 		return sha512.New384()
 	default: // RS512, PS512, ES512, EdDSA (Ed25519)
 		return sha512.New()
